@@ -20,7 +20,7 @@ RULE = ('Hypothesis point sets (2-40 points) from labelled families: clusters, s
         'or a group straddling the seam or within 5 deg of a pole.')
 ASSUMPTIONS = ['chunksize >= 4 x linking length is enforced by spheregroup itself; the generator also bounds the grid to <= 2e4 cells',
                'separations within 1e-7 relative of the linking length may link or not',
-               '|Dec| <= 89.9999, RA in [0,360)']
+               '|Dec| <= 89.9999, RA in [0,360)', 'linking lengths from 1e-7 deg (sub-milliarcsecond) up; the reference separations are exact to ~1e-16 rad, i.e. 1e-7 relative at 1e-7 deg, inside the band']
 
 
 def components(adj):
@@ -110,7 +110,7 @@ def randomwalk(draw, L):
 
 @st.composite
 def case_strategy(draw):
-    L = 10 ** (draw(st.integers(-35, 12)) / 10.0) * (1 + 0.1 * draw(G.unitf))
+    L = 10 ** (draw(st.one_of(st.integers(-35, 12), st.integers(-70, -35))) / 10.0) * (1 + 0.1 * draw(G.unitf))     # 1e-7 .. 16 deg
     which = draw(st.integers(0, 7))
     if which == 0:
         pts = draw(filaments(L))
@@ -124,6 +124,13 @@ def case_strategy(draw):
                                 families=['cluster', 'seam', 'seam', 'polar', 'allsky', 'lattice', 'chain', 'chain', 'chain']))
     if pts['family'] == 'allsky':
         L = max(L, 0.5)
+    if draw(st.integers(0, 12)) == 0:
+        # integer-valued coordinates handed over as integer arrays (positions from a catalogue grid)
+        L = draw(st.sampled_from([1.5, 2.5, 1.0]))
+        k = draw(st.integers(3, 25))
+        cells = draw(st.lists(st.tuples(st.integers(0, 359), st.integers(-60, 60)), min_size=k, max_size=k, unique=True))
+        near = [(min(359, c[0] + draw(st.integers(0, 2))), c[1] + draw(st.integers(0, 2))) for c in cells[:k // 2]]
+        pts = dict(family='integer-arrays', ra1=[c[0] for c in cells + near], dec1=[c[1] for c in cells + near])
     cs = draw(st.sampled_from([None, None, 4.0, 4.0, 6.0, 10.0, 30.0] if pts['family'] not in ('randomwalk', 'polylines') else [4.0, None, 4.0, 5.0, 8.0]))
     eff = max(4.0 * L, 0.1) if cs is None else cs * L
     safe = G.safe_chunksize(pts['ra1'], pts['dec1'], eff)
@@ -146,6 +153,8 @@ def lattice_cases(tier):
 def body(case):
     from pydl.pydlutils.spheregroup import spheregroup
     ra, dec = np.array(case['ra']), np.array(case['dec'])
+    if case['family'] == 'integer-arrays':
+        ra, dec = ra.astype('i8'), dec.astype('i8')
     n = len(ra)
     L = case['L']
     S = G.sepmat(ra, dec, ra, dec)
